@@ -150,8 +150,14 @@ impl HdlcDeframer {
                 // We can't move from `bits`, since it's only borrowed,
                 // but we can swap its contents.
                 std::mem::swap(&mut bits, inbits);
-                if bits.len() > self.max_size * 8 {
-                    return Ok(State::Unsynced(0xff));
+                // `bits` also collects up to seven bits of the closing flag
+                // before it's recognized, so allow for those. Otherwise a
+                // frame of exactly max_size is dropped in the middle of its
+                // closing flag.
+                if bits.len() > self.max_size * 8 + 7 {
+                    // Too long. Keep the current bit in the flag search, since
+                    // it may be the start of the closing flag.
+                    return Ok(State::Unsynced(0x7f | (bit << 7)));
                 }
                 if bit > 0 {
                     bits.push(1);
